@@ -113,6 +113,8 @@ func newPkg(pkg *packages.Package, u *Universe) Package {
 		}
 	}
 
+	pkgScope := pkg.Types.Scope()
+
 	for ident := range p.Package.TypesInfo.Defs {
 		switch x := p.Package.TypesInfo.Defs[ident].(type) {
 		case *types.Func:
@@ -133,13 +135,18 @@ func newPkg(pkg *packages.Package, u *Universe) Package {
 				if named != nil {
 					p.methods[named] = append(p.methods[named], x)
 				}
-			} else {
+			} else if x.Parent() == pkgScope {
 				p.funcs[x.Name()] = x
 			}
 		case *types.TypeName:
-			p.types[x.Name()] = x
+			// only package-level, skip local types and type params
+			if x.Parent() == pkgScope {
+				p.types[x.Name()] = x
+			}
 		case *types.Const:
-			p.constants[x.Name()] = x
+			if x.Parent() == pkgScope {
+				p.constants[x.Name()] = x
+			}
 		}
 	}
 
